@@ -1,4 +1,5 @@
 import CopVerif.Real.Inst
+import CopVerif.Real.BridgeTac
 import CopVerif.Gen.Bivariate
 /-! Gumbel copula over ℝ: spec, bridge to the generated definitions, C06 facts, the part of C07
     that does not need derivatives (sign/bounds/symmetry of `h` and `c`, row independence of the
@@ -35,20 +36,20 @@ noncomputable def c (θ u v : ℝ) : ℝ :=
 /-! ### bridges: generated definition = spec -/
 
 theorem bridge_cdfRow (θ u v : ℝ) : Gen.Gumbel.cdfRow θ u v = C θ u v := by
-  simp [Gen.Gumbel.cdfRow, C, S]
+  bridge [Gen.Gumbel.cdfRow, C, S]
 
 theorem bridge_generator (θ t : ℝ) : Gen.Gumbel.generator θ t = φ θ t := by
-  simp [Gen.Gumbel.generator, φ]
+  bridge [Gen.Gumbel.generator, φ]
 
 theorem bridge_cdfPt (θ u v : ℝ) :
     Gen.Gumbel.cdfPt θ u v = if θ = 1 then u * v else C θ u v := by
-  simp [Gen.Gumbel.cdfPt, Gen.Gumbel.cdf_leaf0, bridge_cdfRow]
+  bridge [Gen.Gumbel.cdfPt, Gen.Gumbel.cdf_leaf0, bridge_cdfRow]
 
 theorem bridge_hRow {θ : ℝ} (hθ : θ ≠ 1) (u v : ℝ) : Gen.Gumbel.hRow θ u v = h θ u v := by
-  simp [Gen.Gumbel.hRow, bridge_cdfPt, hθ, h, S]
+  bridge [Gen.Gumbel.hRow, bridge_cdfPt, hθ, h, S]
 
 theorem bridge_pdfRow {θ : ℝ} (hθ : θ ≠ 1) (u v : ℝ) : Gen.Gumbel.pdfRow θ u v = c θ u v := by
-  simp [Gen.Gumbel.pdfRow, bridge_cdfPt, hθ, c, S]
+  bridge [Gen.Gumbel.pdfRow, bridge_cdfPt, hθ, c, S]
 
 theorem checkFit_ok {θ : ℝ} (hθ : 1 ≤ θ) :
     checkFit (Gen.Gumbel.thetaLower (α := ℝ)) Gen.Gumbel.thetaUpper Gen.Gumbel.invalidThetas θ
